@@ -11,13 +11,15 @@ from harness import c06_gen as G
 from harness import c06_sections as S
 from harness import c06_pairs as PR
 from harness import c06_scope as CS
+from harness import c06_comp as CC
+from harness import pyast_wire as PW
 from harness import progen
 from harness import stmt_wire as SW
 
 META = {
     "id": "C06",
-    "technique": "Coq proof (escape = _escape_string_literal - backslash, quote, LF / CR / TAB as letter escapes, every other control character as a three-digit octal escape - round-trips through a model of the g++ string-literal lexer for EVERY string, its image contains no control character, it is injective and agrees with the pre-repair function on strings without control characters, which in turn is shown to fail on a raw line end; the emitter's stitching order - with one prototype per function variant and ultrasonic helper after the globals - is sorted by section kind with one setup and one loop, declared-before-use of file-scope names holds under a guard that lets a function mention any function and any ultrasonic helper, in particular for a function that calls measure_distance() or a function defined further down, and is refuted for the order without prototypes; every assignment in the IR of the statement translator targets a variable visible under C++ block scoping, by induction over the translation incl. promotion and both rewriters, refuted for a setup-local introduced by a mixed tuple assignment; the header stitching includes the headers of every library class it instantiates, for every list of device declarations (Lang/Headers.v); the function-selection loop of parse() emits each (function, signature) once, only existing variants and every variant a recorded call resolves to, and no two definitions share name and C++ parameter list when the labels are those of _cpp_type's table (Lang/FnSelect.v); every device-call template of _emit_block keeps its helper locals in a block of its own, so any sequence of device calls in any block is free of redeclaration, and a whole function body is when the script's own declarations are (Lang/EmitScope.v: scope stack of C++ block scoping, LCD glyph arrays numbered by a counter that only grows); the global lines de-duplicated by text define no name twice when each name is always offered with one initialiser, refuted for a Servo bound twice with different limits (Lang/Globals.v); the table of names the parser refuses to declare - regenerated from the parser on every run - contains every keyword and alternative token of ISO C++17, setup / loop / main, the Arduino core identifiers the emitter writes and every A<digits>, so an accepted script declares none of them (Lang/Reserved.v); the exception classes emit() declares at file scope are exactly the classes some except clause of setup / loop / a function body names at any depth, each once, and the qualified name of the catch header is the declared path (Lang/ExcDecl.v)) + extracted-model correspondence with the real _escape_string_literal / _to_c_expr, with g++'s own lexer, with the section structure read back from the real emitted text, of the scoping verdict with g++, of the include list / library objects with the real text for the device declarations of the real IR, of the selected function variants with Program.functions for the real specialisation tables, and of the blocks and declarations of setup / loop / every user function that the emitter model produces for the real IR with those read back from the real text + the compiler as property oracle: the whole statement catalog (every device method with literal and run-time arguments, every statement that makes the transpiler invent a C++ name) twice in ONE block of every kind of block, reduced by ddmin to a minimal failing sequence; every accepted generated script inside the guard is compiled and linked with g++ against the mock core, every generated literal (printable or with control characters, NUL excepted) is printed by the firmware and compared with the Python value; the images of the real escape are compiled by g++ and read back byte by byte",
-    "level_text": "Theorems C06_* (coq/Props/C06.v) hold for all strings / all sketches / all programs of Gallina models (coq/Lang/Escape.v: escape and a lexer of one ordinary C++ string literal incl. line splicing and octal / hexadecimal escapes; coq/Lang/Sections.v: the emitter's stitching order incl. the generated prototypes, with defines/uses per top-level item; coq/Lang/Scope.v: C++ block scoping over the IR of coq/Lang/Transl.v, the model of the statement translator that unit C01_stmt ties to parser.py; coq/Lang/Headers.v: servo/LCD flags, library objects and includes as a fold over the top-level device declarations; coq/Lang/FnSelect.v: the selection loop over variants / recorded call signatures / aliases / primary signature and _cpp_type; coq/Lang/EmitScope.v: per IR node kind the blocks it opens and the names it declares, written from the branches of _emit_block, and the scope stack that decides 'declared twice in one scope'; coq/Lang/Globals.v: de-duplication of global lines by text; coq/Lang/Reserved.v: _check_identifier over the regenerated table; coq/Lang/ExcDecl.v: _exception_classes / _exception_class_decl over the IR tree as _nested_blocks sees it). The models are run against the real functions and against g++ on generated inputs; the C++ type checker is not modelled - g++ itself decides, on every accepted script of a structured generator (devices x helpers x lists x functions incl. forward calls and measuring functions x control flow x string literals incl. control characters) restricted to the guard of the listed findings.",
+    "technique": "Coq proof (escape = _escape_string_literal - backslash, quote, LF / CR / TAB as letter escapes, every other control character as a three-digit octal escape - round-trips through a model of the g++ string-literal lexer for EVERY string, its image contains no control character, it is injective and agrees with the pre-repair function on strings without control characters, which in turn is shown to fail on a raw line end; the emitter's stitching order - with one prototype per function variant and ultrasonic helper after the globals - is sorted by section kind with one setup and one loop, declared-before-use of file-scope names holds under a guard that lets a function mention any function and any ultrasonic helper, in particular for a function that calls measure_distance() or a function defined further down, and is refuted for the order without prototypes; every assignment in the IR of the statement translator targets a variable visible under C++ block scoping, by induction over the translation incl. promotion and both rewriters, refuted for a setup-local introduced by a mixed tuple assignment; the header stitching includes the headers of every library class it instantiates, for every list of device declarations (Lang/Headers.v); the function-selection loop of parse() emits each (function, signature) once, only existing variants and every variant a recorded call resolves to, and no two definitions share name and C++ parameter list when the labels are those of _cpp_type's table (Lang/FnSelect.v); every device-call template of _emit_block keeps its helper locals in a block of its own, so any sequence of device calls in any block is free of redeclaration, and a whole function body is when the script's own declarations are (Lang/EmitScope.v: scope stack of C++ block scoping, LCD glyph arrays numbered by a counter that only grows); the global lines de-duplicated by text define no name twice when each name is always offered with one initialiser, refuted for a Servo bound twice with different limits (Lang/Globals.v); the table of names the parser refuses to declare - regenerated from the parser on every run - contains every keyword and alternative token of ISO C++17, setup / loop / main, the Arduino core identifiers the emitter writes and every A<digits>, so an accepted script declares none of them (Lang/Reserved.v); the exception classes emit() declares at file scope are exactly the classes some except clause of setup / loop / a function body names at any depth, each once, and the qualified name of the catch header is the declared path (Lang/ExcDecl.v); a list comprehension declares its variable as the parameter of a block of its own - for every right-hand side and every state of the enclosing scopes nothing is redeclared and the enclosing scopes are left as they were - and, over the real save / write int / restore mechanism on the one mutable var_types table, an assignment changes the recorded type of the assigned name only, so that the declarations a sequence of assignments causes are those of lexical scoping, each name once; refuted for a `finally` that pops instead of restoring (Lang/CompScope.v)) + extracted-model correspondence with the real _escape_string_literal / _to_c_expr, with g++'s own lexer, with the section structure read back from the real emitted text, of the scoping verdict with g++, of the include list / library objects with the real text for the device declarations of the real IR, of the selected function variants with Program.functions for the real specialisation tables, and of the blocks and declarations of setup / loop / every user function that the emitter model produces for the real IR with those read back from the real text + the compiler as property oracle: the whole statement catalog (every device method with literal and run-time arguments, every statement that makes the transpiler invent a C++ name) twice in ONE block of every kind of block, reduced by ddmin to a minimal failing sequence; every accepted generated script inside the guard is compiled and linked with g++ against the mock core, every generated literal (printable or with control characters, NUL excepted) is printed by the firmware and compared with the Python value; the images of the real escape are compiled by g++ and read back byte by byte",
+    "level_text": "Theorems C06_* (coq/Props/C06.v) hold for all strings / all sketches / all programs of Gallina models (coq/Lang/Escape.v: escape and a lexer of one ordinary C++ string literal incl. line splicing and octal / hexadecimal escapes; coq/Lang/Sections.v: the emitter's stitching order incl. the generated prototypes, with defines/uses per top-level item; coq/Lang/Scope.v: C++ block scoping over the IR of coq/Lang/Transl.v, the model of the statement translator that unit C01_stmt ties to parser.py; coq/Lang/Headers.v: servo/LCD flags, library objects and includes as a fold over the top-level device declarations; coq/Lang/FnSelect.v: the selection loop over variants / recorded call signatures / aliases / primary signature and _cpp_type; coq/Lang/EmitScope.v: per IR node kind the blocks it opens and the names it declares, written from the branches of _emit_block, and the scope stack that decides 'declared twice in one scope'; coq/Lang/Globals.v: de-duplication of global lines by text; coq/Lang/Reserved.v: _check_identifier over the regenerated table; coq/Lang/ExcDecl.v: _exception_classes / _exception_class_decl over the IR tree as _nested_blocks sees it; coq/Lang/CompScope.v: the scope tokens of the lambda a comprehension becomes, and the declaration bookkeeping of single-name assignments over Lang/InferComp.v's model of the var_types bracket, with a lexically scoped reference). The models are run against the real functions and against g++ on generated inputs; the C++ type checker is not modelled - g++ itself decides, on every accepted script of a structured generator (devices x helpers x lists x functions incl. forward calls and measuring functions x control flow x string literals incl. control characters) restricted to the guard of the listed findings.",
     "level_note": "Trusted: Coq kernel, extraction, OCaml driver, g++ 12 -std=gnu++17 and the mock Arduino core as the definition of 'compiles', harness/c06_sections.py (reads top-level items, defined and used names out of the emitted text), harness/c06_gen.py (script generator and the syntactic guard shapes_of). Theorems are about the models; what ties the whole transpiler to the property is the compiler oracle, a search, not a proof.",
     "design_ref": "DESIGN.md section 4 C06",
 }
@@ -914,6 +916,119 @@ def part_scripts(ctx, dist, samples):
 
 
 
+# ------------------------------------------------------------------ L. binders with a scope of their own that re-use an outer name
+def _enc_rhs(targets, elt):
+    w = [0, PW.enc_src(elt)]
+    for t in reversed(targets):
+        w = [1, t, PW.enc_src("3"), w]
+    return w
+
+
+def _comp_verdict(src, expect, r, c):
+    """-> None | (key, what, expected, observed)"""
+    if not c["compiled"]:
+        return ("scoped-binder:compile", "accepted script in which a comprehension / parameter / function-local loop variable re-uses the name of an outer variable does not compile",
+                "g++ -std=gnu++17 compiles and links", re.findall(r"error: .*", c["compile_log"])[:4] or "g++ error")
+    bad = CC.check_expect(r["cpp"], expect)
+    if bad:
+        return ("scoped-binder:declared-type", "an identifier is declared with another type than the value it is first assigned (a copy of / the return value of a variable declared earlier, "
+                "whose name a comprehension or another binder with a scope of its own re-uses)",
+                {n: w for n, w, _ in bad}, {n: g for n, _, g in bad})
+    return None
+
+
+def part_comp(ctx, dist, samples):
+    rng = ctx.rng
+    thorough = ctx.tier == "thorough"
+    # L1: the property's clause on the real artefacts
+    if thorough:
+        groups = [[sc] for sc in CC.exhaustive_scenarios(rng, None)]
+        groups += [[CC.scenario(rng) for _ in range(rng.choice([1, 2, 3]))] for _ in range(260)]
+    else:
+        ex = CC.exhaustive_scenarios(rng, 2)
+        groups = [ex[k:k + 2] for k in range(0, len(ex), 2)]
+        groups += [[CC.scenario(rng) for _ in range(rng.choice([2, 3]))] for _ in range(8)]
+    built = [CC.build(g) for g in groups]
+    for g in groups:
+        for sc in g:
+            dist[f"L:scenario site={sc['site']}"] += 1
+            dist[f"L:scenario outer type={sc['type']}"] += 1
+    inside = []
+    for g, (src, ex) in zip(groups, built):
+        sh = G.shapes_of(src)
+        if sh:
+            for k in sh:
+                dist["L:outside-guard:" + k] += 1
+            continue
+        inside.append((g, src, ex))
+    res = _compile_many([src for _, src, _ in inside])
+    n_eval = 0
+    for (g, src, ex), (r, c) in zip(inside, res):
+        if not r["ok"]:
+            dist["L:rejected:" + r["exc"]] += 1
+            continue
+        n_eval += 1 + len(ex["vars"]) + len(ex["fns"])
+        dist["L:scripts compiled and read back"] += 1
+        v = _comp_verdict(src, ex, r, c)
+        if v is None:
+            continue
+        # reduce to single scenarios
+        shown = False
+        if len(g) > 1:
+            singles = [CC.build([sc]) for sc in g]
+            for sc, (s1, e1), (r1, c1) in zip(g, singles, _compile_many([s for s, _ in singles])):
+                if r1["ok"]:
+                    v1 = _comp_verdict(s1, e1, r1, c1)
+                    if v1:
+                        shown = True
+                        ctx.fail(v1[1], {"script": s1, "site": sc["site"], "outer_type": sc["type"]}, v1[2], v1[3], key=v1[0] + ":" + sc["site"].split("_")[0])
+        if not shown:
+            ctx.fail(v[1], {"script": src, "sites": [sc["site"] for sc in g], "outer_types": [sc["type"] for sc in g]}, v[2], v[3], key=v[0])
+    if inside:
+        samples.append({"script": inside[0][1]})
+    # L2: Lang/CompScope.v against the real parse() + emit() on sequences of top-level assignments
+    n = 400 if thorough else 90
+    progs = [CC.flat_program(rng, rng.randint(2, 7)) for _ in range(n)]
+    progs = [p for p in progs if p]
+    srcs = [HEAD + "\n".join(CC.flat_source(p)) + "\nwhile True:\n    sleep(100)\n" for p in progs]
+    _, tr = transpile(srcs)
+    mo = ctx.model([[12, [[x, _enc_rhs(ts, e)] for x, ts, e in p]] for p in progs]) if ctx.exe else [None] * len(progs)
+    for p, src, r, m in zip(progs, srcs, tr, mo):
+        reuse = sum(1 for x, ts, e in p if ts and any(t in [y for y, _, _ in p] for t in ts))
+        dist["L:flat programs with a comprehension over a declared name" if reuse else "L:flat programs without re-use"] += 1
+        if m is None:
+            continue
+        n_eval += 1
+        if m[0] != 0:
+            ctx.disagree("model could not decode the assignment sequence", {"script": src}, m, p)
+            continue
+        run, pure, ref, scoped, pop = m[1], m[2], m[3], m[4], m[5]
+        if not pure:
+            dist["L:flat outside the guard pure_run"] += 1
+        if run[0] == 0 or not r["ok"]:
+            if (run[0] == 0) != (not r["ok"]):
+                ctx.disagree("assignment sequence: accepted by one of model / transpiler only", {"script": src}, "rejected" if run[0] == 0 else "accepted", r.get("exc", "accepted"))
+            dist["L:flat rejected"] += 1
+            continue
+        decls = [(C.wstr(d[0]), C.wstr(d[1])) for d in run[1]]
+        real = [(x, CC.declared_types(r["cpp"], x)) for x, _ in decls]
+        if any(g != [t] for (_, t), (_, g) in zip(decls, real)):
+            ctx.disagree("declared C++ types of a sequence of assignments: Lang/CompScope.v (run) vs the declarations in the emitted text", {"script": src}, decls, real)
+        names = []
+        for x, _, _ in p:
+            if x not in names:
+                names.append(x)
+        if [x for x, _ in decls] != names:
+            ctx.disagree("which names a sequence of assignments declares: model vs assigned names in order", {"script": src}, [x for x, _ in decls], names)
+        if pure and (ref[0] != 1 or [(C.wstr(d[0]), C.wstr(d[1])) for d in ref[1]] != decls):
+            ctx.disagree("extracted model contradicts C06_declarations_are_lexical_partial", {"script": src}, decls, ref)
+        if not scoped:
+            ctx.disagree("extracted model contradicts C06_assignments_block_scoped", {"script": src}, "scoped", "redeclaration")
+        if pop[0] == 1 and [(C.wstr(d[0]), C.wstr(d[1])) for d in pop[1]] != decls:
+            dist["L:flat programs on which a popping finally would declare another type"] += 1
+    return n_eval
+
+
 # ------------------------------------------------------------------ H. every statement shape, and every pair of them, in ONE block
 def _compile_many(srcs):
     """-> [(transpile result, compile result or None)]"""
@@ -1363,6 +1478,7 @@ def run(ctx: C.Ctx):
     n6 += check_scopes(ctx, [(src, r, c) for _, src, r, c in pair_batch], dist, consts); lap("I scopes of the sequences")
     n7 = part_reserved(ctx, dist); lap("J reserved identifiers")
     n8 = part_exc(ctx, dist); lap("K exception classes")
+    n9 = part_comp(ctx, dist, samples); lap("L scoped binders re-using outer names")
 
     for f in local_findings(ctx):
         if f.get("kind") == "fixed":
@@ -1378,7 +1494,7 @@ def run(ctx: C.Ctx):
             ctx.disagree("listed finding's witness is inside the executable guard", {"script": w}, "outside", "inside")
 
     ctx.coverage.update({
-        "evaluations": n1 + n2 + n3 + n4 + n5 + n6 + n7 + n8,
+        "evaluations": n1 + n2 + n3 + n4 + n5 + n6 + n7 + n8 + n9,
         "distinct_nontrivial": nt1 + nt4,
         "rule": "fixed findings: every witness recorded as fixed (ten, three of them - literal concatenation, named except, reserved identifier - since this repair) is replayed first (a failure is a VIOLATION with the witness as replay). "
                 "A: escape on special strings + all 1/2-character strings over a 21-symbol boundary alphabet (incl. LF, CR, TAB, NUL, 0x01, 0x1f, DEL, digits) + all 3-character strings over 8 symbols + every code point below 256 alone and in front of 0 7 8 a f backslash quote LF + seeded strings, half printable (ASCII incl. quote/backslash/?, Unicode), half with control characters mixed in (often right before a digit / hex digit / backslash / quote) (model vs _escape_string_literal; the real output lexed by the model lexer must give back the string - for EVERY string; the three escape call sites of _to_c_expr). "
@@ -1390,11 +1506,12 @@ def run(ctx: C.Ctx):
                 "F: statement-fragment programs (harness/progen.py feature sets + 34 scoping boundary templates: all-new / mixed / all-old tuple assignments at every level, names first bound in branches and loops, for variables re-bound after the loop) through the extracted Lang.Transl + Lang.Scope and through the real transpiler + g++: the theorem's conclusion is re-checked on the extracted model, and a target the model finds invisible must make g++ fail with 'not declared'. "
                 "J: Lang/Reserved.v (table regenerated from parser._CPP_RESERVED_NAMES, rule probed on the real function by the translator) against parser._check_identifier on every name of the harness's own lists (C++ keywords, core names, C library names, generator pools), their mutilations (prefix, suffix, case, one character less), A<digits> of every length and random ASCII identifiers; check_all executed on random name lists. The region itself is searched by D: repaired_boundary_scripts declares every reserved name at one of 14 declaration sites (assignment, main loop, tuple, for variable, function name, parameter, local, inside if / try, comprehension, except target, exception class, dotted class) and twelve names at every site - an accepted script must compile -, plus 20 shapes of literal concatenation / int() of a choice and every except-handler form in setup, main loop and a function. "
                 "K: random IR trees (TryStatement with 0-3 handlers with / without class, dotted classes, the same class several times; IfStatement / WhileLoop / ForRangeLoop / Sleep around them; depth <= 3) for setup, loop and 0-2 function bodies, built from the real IR classes and put through the real emit(): emitter._exception_classes = program_classes of Lang/ExcDecl.v, the struct / namespace lines of the text = class_decl of each in that order, the qualified names of the catch headers = dots_to_colons of the declared classes; oracle on the real text: every class a catch header names is declared by exactly one line, and a sample of the sketches is compiled by g++. "
+                "L: harness/c06_comp.py - binders with a scope of their own that re-use the NAME of an outer variable: scenarios = outer variable of type int / float / String / bool / list[int] / list[float] / list[String] x 24 sites (comprehension at the top level, in an if / else arm, a for / while body, a try body, in a function over a global, over the function's own annotated parameter, in a branch of a function, nested in a comprehension over another / over the SAME name, two comprehensions in a row, range() over the outer variable itself, with a second outer variable in the element, at the top of the main loop and in if / for / try there, as the returned expression, as the argument of len() / of a helper with an un-annotated parameter, assigned twice; a function parameter / a function's for variable of the name of a global) x 17 element forms (arithmetic, float, str(), literal, f-string, conditional expression, comparison, other outer variables, subscript of an outer list, call of a user function) x 8 range() forms (1-3 arguments, negative step, run-time bounds); the outer variable is copied before and after, first assigned in the main loop and returned from a function defined afterwards. Oracle on the real artefacts: the accepted script compiles (g++) AND every name whose type the construction fixes - the copies, the function results, the lists - is declared exactly once in the emitted text with that C++ type (quick: every site with two outer types, two scenarios per script + 8 random scripts; thorough: every site x type alone + 260 random scripts; a failing script is re-run scenario by scenario and the single failing scenario is the replay). Correspondence: seeded sequences of 2-7 top-level assignments (literals, copies, arithmetic, comprehensions nested up to 2 whose targets are mostly declared names) through the extracted Lang.CompScope (wire op 12) and the real parse() + emit(): same accept / reject, same declared names in the same order, same C++ type per declaration; the theorem's conclusions (lexical reference, block scoped) re-checked on the extracted model; the number of sequences on which a popping `finally` would declare another type is measured. The generic generator of D re-uses an outer name in every third comprehension, and its comprehensions now also run over range() with 2-3 arguments / a negative step and make lists of strings and bools (str(i), literals, concatenation with outer Strings, comparisons, conditional expressions). "
                 "distinct non-trivial = strings that need escaping + distinct (section-kind multiset, helper set) signatures of compiled scripts",
         "samples": samples[:4],
         "timing_s": timing,
         "distribution": {k: v for k, v in sorted(dist.items(), key=lambda kv: str(kv[0]))},
-        "guard": "strings: none (every string; the device-value oracle of part C leaves out NUL, which a C string cannot carry). scripts: c06_gen.shapes_of(script) is empty - (lcd.animate() inside a function is generated since repair 17b67c1; `**` is rejected by the transpiler since repair c223eb4) no call of a function defined further down unless that function evidently returns an int or nothing, no '**', no except clause with a tuple of classes ('except <Name>', also dotted and with a target, is generated since the repair of F-C06-named-except), ('+' of two string literals is generated since the repair of F-C06-literal-concat), no name of the C library (c06_gen.LIBC_NAMES) as a Python identifier (a C++ keyword / sketch entry point / Arduino core name as a Python identifier is generated since the repair of F-C06-cpp-keyword-identifier: rejected, or it compiles), no top-level tuple assignment mixing new and old names, no for variable mentioned after its loop, no comprehension over anything but range(...) (a for STATEMENT over a list is rejected by the transpiler since the repair of the silent drops and is generated), no un-annotated parameter re-bound to a string-valued expression, no string / float literal passed to an un-annotated parameter outside an assignment or return value, no function above an RGBLed whose on/off/blink/toggle it calls, no Servo / Buzzer name bound twice with different arguments besides the pin; plus generator invariants: type-correct Python, one type class per variable name, list.append/remove arguments of the element type, a helper with two real overloads has one numeric and one String overload and is called only as the right-hand side of an assignment, a helper whose un-annotated parameter is used as a list is called once in an assignment. Function theorem C06_fn_no_redefinition_partial: all labels in _cpp_type's table. Redeclaration theorem C06_emit_no_redeclaration_partial: the declarations the script itself causes (locals, for variables, catch targets, parameters, button polls) are free of redeclaration (the parser's bookkeeping; checked by g++ and the scope oracle, not proved). Globals theorem: every name always offered with the same initialiser. Scoping theorem: setup() has no top-level local declaration (for loop()), targets of augmented assignments not checked",
+        "guard": "strings: none (every string; the device-value oracle of part C leaves out NUL, which a C string cannot carry). scripts: c06_gen.shapes_of(script) is empty - (lcd.animate() inside a function is generated since repair 17b67c1; `**` is rejected by the transpiler since repair c223eb4) no call of a function defined further down unless that function evidently returns an int or nothing, no '**', no except clause with a tuple of classes ('except <Name>', also dotted and with a target, is generated since the repair of F-C06-named-except), ('+' of two string literals is generated since the repair of F-C06-literal-concat), no name of the C library (c06_gen.LIBC_NAMES) as a Python identifier (a C++ keyword / sketch entry point / Arduino core name as a Python identifier is generated since the repair of F-C06-cpp-keyword-identifier: rejected, or it compiles), no top-level tuple assignment mixing new and old names, no for variable mentioned after its loop, no comprehension over anything but range(...) (a for STATEMENT over a list is rejected by the transpiler since the repair of the silent drops and is generated), no un-annotated parameter re-bound to a string-valued expression, no string / float literal passed to an un-annotated parameter outside an assignment or return value, no function above an RGBLed whose on/off/blink/toggle it calls, no Servo / Buzzer name bound twice with different arguments besides the pin, no function that assigns (without `global`) a literal of another type to a name whose module-level first assignment is a literal (F-C06-fn-local-shadows-global); plus generator invariants: type-correct Python, one type class per variable name, list.append/remove arguments of the element type, a helper with two real overloads has one numeric and one String overload and is called only as the right-hand side of an assignment, a helper whose un-annotated parameter is used as a list is called once in an assignment. Function theorem C06_fn_no_redefinition_partial: all labels in _cpp_type's table. Redeclaration theorem C06_emit_no_redeclaration_partial: the declarations the script itself causes (locals, for variables, catch targets, parameters, button polls) are free of redeclaration (the parser's bookkeeping; checked by g++ and the scope oracle, not proved). Globals theorem: every name always offered with the same initialiser. Scoping theorem: setup() has no top-level local declaration (for loop()), targets of augmented assignments not checked",
         "unmodelled": ["the C++ type checker (template deduction in the list helpers, String overloads, implicit conversions): decided by g++ only",
                        "AVR specifics: <cstring> in the len helper, 16-bit int, PROGMEM; the mock is a hosted g++ 12 with the mock core",
                        "universal character names, GNU escapes, numeric escapes > 255, -trigraphs / -std=c++NN modes (the lexer model answers None)",
@@ -1404,9 +1521,11 @@ def run(ctx: C.Ctx):
                        "which names an item defines/uses is read from the emitted text by harness/c06_sections.py, not by a C++ parser",
                        "Lang/EmitScope.v models which names each node kind declares in which block, not the statements between them; user names are assumed not to start with __redu_ (rendering of the four name classes is then injective); LCD helper snippets and list helpers are fixed text compiled by g++ only; lambdas inside expressions (list comprehensions) are skipped by the reader",
                        "Lang/Globals.v is a model of the de-duplication rule only (no correspondence run: the lines emit() offers are not observable without a hook); its tie is the replayed witness and the g++ oracle on the boundary scripts with re-bound device names",
+                       "Lang/CompScope.v: sequences of single-name assignments in ONE parsing context with the user-function table fixed (functions, branches, the main loop and their child contexts are Lang/Decl.v's, unit C02); the range() arguments are not looked at; plain sub-expressions that change var_types by themselves (name + 'text') are outside the guard pure_run; the nested sites are covered by the oracle of part L only",
                        "scoping theorem: expression reads, redeclaration within one block, the __tmp_assign_k temporaries, user functions, lists and devices are outside Lang/Transl.v; Transl itself is tied to parser.py by unit C01_stmt (IR equality on generated programs), not re-run here"],
         "trusted_base": C.COMMON_TRUSTED + ["g++ 12 -std=gnu++17 -O0 and mock/ (Arduino.h, Servo.h, LiquidCrystal*.h, Wire.h, mock_core.cpp) as the definition of 'compiles against the Arduino core'",
                                             "harness/c06_sections.py (top-level item splitter, defined/used names), harness/c06_gen.py (generator; shapes_of = executable guard)",
+                                            "harness/c06_comp.py (scenario builder with the expected C++ type of every name by construction; reads `T name =` / `T name;` / `T name(` lines out of the emitted text)",
                                             "harness/c06_scope.py (reads blocks, header declarations and declarations of one function out of the emitted text; cross-checked against g++ on every sketch), harness/c06_pairs.py (statement catalog, block contexts, ddmin)",
                                             "harness/impl/c06_impl.py (calls _escape_string_literal, _to_c_expr, parse, emit; exports the emitter's snippet constants, the device declarations of the IR, the IR in the node encoding of Lang/EmitScope.v (fail-closed on an unknown node kind), and - through a wrapper around parser._parse_function that keeps a reference to the ctx dict - the specialisation tables parse() selects from)",
                                             "mock/__MockLcdBase.h: the shared base of the two mock LCD classes lives in its own header, so that LiquidCrystal / LiquidCrystal_I2C are visible only when their own header is included"],
